@@ -1166,9 +1166,7 @@ Proof.
   destruct l as [|t r]; [discriminate|]. cbn [after_ddash] in H.
   destruct (is "--" t). { injection H as <-. apply suffix_cons, suffix_refl. }
   destruct (dash t && negb (has_eq t) && negb (mem_str t KUBECTL_EXEC_BOOL_FLAGS)).
-  - destruct (negb (starts "--" t) && Nat.ltb 2 (length t) && mem_ch (nth 1 t 0) KC_ATTACH).
-    { apply suffix_cons, IH; [cbn [length]; lia|exact H]. }
-    destruct (negb (starts "--" t) && forallb (fun c => mem_ch c KC_BOOLS) (tl' t)).
+  - destruct (negb (starts "--" t) && negb (Nat.eqb (kc_bool_run (tl' t) 1) (length t - 1))).
     { apply suffix_cons, IH; [cbn [length]; lia|exact H]. }
     destruct r as [|a r']; [discriminate|]. apply suffix_cons, suffix_cons, IH; [cbn [length]; lia|exact H].
   - apply suffix_cons, IH; [cbn [length]; lia|exact H].
